@@ -475,6 +475,7 @@ impl Host {
             *self.progress.add(1) = case as u32;
         }
         self.set_phase(1);
+        arm_watchdog(CASE_CPU_SECONDS);
         let plan = self.build.funcs[func].clone();
         let names = self.build.names[func].clone();
         let (v1, v2) = (plan.values[case].clone(), plan.answer(case).clone());
@@ -735,6 +736,19 @@ pub fn vtable() -> VTable {
     }
 }
 
+/// CPU-time budget of one case / one resource history (a legitimate one needs milliseconds). It is
+/// CPU time (ITIMER_PROF), so machine load cannot make a healthy case look hung. Expiry = SIGPROF,
+/// reported by the crash handler as a hang of the case in flight.
+pub const CASE_CPU_SECONDS: i64 = 4;
+
+pub fn arm_watchdog(seconds: i64) {
+    let t = libc::itimerval {
+        it_interval: libc::timeval { tv_sec: 0, tv_usec: 0 },
+        it_value: libc::timeval { tv_sec: seconds, tv_usec: 0 },
+    };
+    unsafe { libc::setitimer(libc::ITIMER_PROF, &t, std::ptr::null_mut()) };
+}
+
 pub fn install_signal_handlers(handler: extern "C" fn(i32)) {
     unsafe {
         // alternate stack so that a stack overflow in the guest is still reported
@@ -749,7 +763,7 @@ pub fn install_signal_handlers(handler: extern "C" fn(i32)) {
         );
         let ss = libc::stack_t { ss_sp: stack, ss_flags: 0, ss_size: sz };
         libc::sigaltstack(&ss, std::ptr::null_mut());
-        for s in [libc::SIGILL, libc::SIGSEGV, libc::SIGBUS, libc::SIGFPE, libc::SIGABRT, libc::SIGTRAP] {
+        for s in [libc::SIGILL, libc::SIGSEGV, libc::SIGBUS, libc::SIGFPE, libc::SIGABRT, libc::SIGTRAP, libc::SIGPROF] {
             let mut sa: libc::sigaction = std::mem::zeroed();
             sa.sa_sigaction = handler as usize;
             sa.sa_flags = libc::SA_ONSTACK | libc::SA_NODEFER;
@@ -791,5 +805,6 @@ pub fn child_run(build: &ChunkBuild, skip_cases: &BTreeSet<(usize, usize)>, skip
             h.run_case(f, c);
         }
     }
+    arm_watchdog(0);
     serde_json::to_vec(&h.outcome(None)).unwrap()
 }
